@@ -18,17 +18,23 @@ Monitors
   epoch_resplit    SpecialPerturbations(jd0 + s/86400).propagate(t0 - s, t2 - s) == SpecialPerturbations(jd0).propagate(t0, t2)
   sp_*             compose / batch / bulk / event relations on SpecialPerturbations
   sp_reduces       SpecialPerturbations with degree = order = 0 and no perturbation == closed-form Kepler
+  scenario_truth   TruthEphemeris rows of real truth-only Scenario runs: two_body rows == closed form from the configured
+                   state at every epoch; rows of runs with different physics steps agree at common epochs (both models)
 
 Tolerance model (DESIGN 3.7).  solve_ivp runs with rtol = 1e-10, atol = 1e-12 on every component, i.e. a local error of
 about rtol*|y| per step; along-track error grows with the square of the number of revolutions (an energy error of
 k*rtol shifts the period).  The error *unit* of a state x propagated over dt is therefore
 
-      u_r = rtol * a * (1 + dt/P)^2 / (1 - e)        [km]          u_v = u_r * sqrt(mu / r_p^3)   [km/s]
+      u_r = rtol * a * (0.05 + dt/P)^2 / (1 - e)     [km]          u_v = u_r * sqrt(mu / r_p^3)   [km/s]
 
-(a, e, P, r_p osculating elements of the input; the 1/(1-e) factor and the perigee rate follow the conditioning of
-eccentric orbits).  Each monitor allows ``TOL[monitor] * unit``; TOL is >= 100x the worst ratio measured on the unchanged
-tree (calibration table next to TOL).  Energy / angular momentum use rtol * (1 + dt/P) / (1 - e) as relative unit.
+(a, e, P, r_p osculating elements of the input; 0.05 rev is the start-up floor; the 1/(1-e) factor and the perigee rate
+follow the conditioning of eccentric orbits; values taken from solve_ivp's interpolant - t_eval outputs, event roots -
+add rtol*a/(1-e), the interpolation error that does not shrink with dt).  Each monitor allows ``TOL[monitor] * unit``; TOL
+is >= 100x the worst ratio measured on the unchanged tree (calibration table next to TOL).  Energy / angular momentum use
+rtol * (0.05 + dt/P) / (1 - e) as relative unit.
 Realistic breaks (wrong stride, wrong epoch origin, lost restart, loosened rtol) are >= 1e4 units.
+SpecialPerturbations has two documented *jumps* in its force (SRP eclipse switch, the 1 s UT1 step at a leap second);
+spans that can contain one get the additional absolute allowance of ``_jump`` (one integrator step straddling the jump).
 """
 
 from __future__ import annotations
@@ -52,17 +58,22 @@ RULE = ("cases = (relation, dynamics spec, integrator, orbit(s), t0, duration, s
         "evaluated against the tolerance model")
 ASSUME = ["refs/keplerref.py (eccentric-anomaly-difference f/g solution, no code shared with the repository) is the "
           "two-body truth; Earth.mu is shared as a constant and cross-checked",
-          "tolerances = calibrated multiple (>=100x worst observed) of rtol*a*(1+n_rev)^2/(1-e); a break smaller than "
+          "tolerances = calibrated multiple (>=100x worst observed) of rtol*a*(0.05+n_rev)^2/(1-e); a break smaller than "
           "that multiple of the integrator's own tolerance is not detectable",
           "perturbed dynamics has no independent truth here (C13 owns the force model); only the metamorphic relations "
           "are checked for SpecialPerturbations",
           "a terminal event with zero state change is a legitimate no-op (uses the repository's ScheduledImpulse root "
-          "function; getStateChange returns zeros)"]
+          "function; getStateChange returns the configured delta-v or zeros, without the EventStack log record)",
+          "SpecialPerturbations' force jumps (SRP eclipse switch, 1 s UT1 step at a leap second) are documented model "
+          "behaviour: spans that can contain one get an extra allowance for one integrator step straddling the jump",
+          "scenario times are >= 0 (propagate never returns for final_time < 0: spacing() of a negative time is negative) "
+          "and propagateBulk with events gets (6,K) states only, as documented",
+          "ray stand-in (rvmon/shimray.py) replaces the executor in the scenario_truth runs; everything else is repository code"]
 SHARDS = {"quick": 4, "thorough": 16}
 BUDGET_S = {"quick": 75, "thorough": 900}
 DECIDING = ["tol_constants", "kepler_exact", "conservation", "universal", "compose", "batch_vs_single", "bulk_vs_single",
             "bulk_degenerate", "event_restart", "epoch_resplit", "sp_compose", "sp_batch_vs_single", "sp_bulk_vs_single",
-            "sp_reduces"]
+            "sp_reduces", "scenario_truth"]
 MANIFEST = {"technique": "runtime monitoring: metamorphic relations + closed-form Kepler oracle on the real propagators",
             "level_text": "exploration: seeded boundary-biased sampling of orbits, durations, splits, batches, grids, epoch shifts",
             "level_note": "agreement is 'within calibrated integrator tolerance', never bitwise"}
@@ -74,7 +85,8 @@ METHODS = ("RK45", "DOP853")
 HANG_S = 240  # seconds; run() lowers it to 100 in the quick tier (largest legitimate quick call: ~2 s)
 
 # Allowed multiples of the error unit = 100 x (worst ratio seen on the unchanged tree, rounded up).  Calibration: four
-# thorough-sized sweeps (seeds 0..3 and separate streams), 1.2e5 two-body and 6e3 SP cases, 4e5 compared states:
+# thorough-sized sweeps over independent random streams plus targeted SP sweeps (SRP on, leap-second crossings, split
+# points), about 1.1e5 cases / 3.5e5 compared states in total:
 #   monitor            worst observed    allowed
 #   kepler_exact            49.4           5000      (RK45 dominates; DOP853 stays below 8)
 #   sp_reduces              45.9           5000
@@ -86,6 +98,7 @@ HANG_S = 240  # seconds; run() lowers it to 100 in the quick tier (largest legit
 #   bulk_vs_single           5.1 (sp 5.9)   600
 #   event_restart           11.4 (sp 14.7) 1500
 #   epoch_resplit            8.6           1000
+#   scenario_truth          25.1           3000      (970 scenario pairs, 2.6e4 rows; unit = unit(dt) + n_steps * unit(step))
 # e.g. kepler_exact allows 3.9 m after one LEO revolution and 0.9 km after a day (16 rev) where 8e-4 km is observed;
 # a wrong stride, a wrong epoch origin, a dropped restart or rtol = 1e-6 are 1e4 .. 1e9 units.
 TOL = {
@@ -99,6 +112,7 @@ TOL = {
     "bulk_vs_single": 600.0,
     "event_restart": 1500.0,
     "epoch_resplit": 1000.0,
+    "scenario_truth": 3000.0,
 }
 
 
@@ -114,17 +128,9 @@ def _init():
     global _READY
     if _READY:
         return
-    from .. import core
+    from .. import scenario_kit as sk
 
-    core.install_paths()
-    import logging
-    import warnings
-
-    warnings.filterwarnings("ignore")
-    lg = logging.getLogger("resonaate")
-    lg.addHandler(logging.NullHandler())
-    lg.setLevel(logging.CRITICAL + 10)
-    lg.propagate = False
+    sk.init()  # installs the ray stand-in before resonaate is imported (needed by the scenario relation), quiets logging
     _READY = True
 
 
@@ -255,7 +261,7 @@ def _unit(x0, dt, dense=False):
 SRP_P = 4.56e-9  # km/s^2 per (m^2/kg): solar radiation pressure at 1 AU = size of the eclipse switch of the SRP force
 LEAPS_JD = (2457204.5, 2457754.5)  # 2015-07-01 and 2017-01-01 0h UTC: UT1-UTC steps by +1 s, the Earth "jumps" by 7.3e-5 rad
 OMEGA_E, RE_KM, TESS = 7.292115e-5, 6378.1363, 2.5e-6
-J_SRP, J_LEAP = 5.0, 250.0  # calibrated multiples of the one-step bound below (100 x worst observed: 0.05 and 2.2)
+J_SRP, J_LEAP = 10.0, 300.0  # calibrated multiples of the one-step bound below (100 x worst observed: 0.088 and 3.05)
 _JCAL = None
 
 
@@ -325,7 +331,7 @@ def _close(ctx, name, ratio, key, what, w, mon):
     if TOL[name] >= ratio > 0.05 * TOL[name]:
         ctx.add_to_set("near_miss", f"{wk}: {ratio:.3g} of {TOL[name]:g} allowed units :: {json.dumps(w)[:1200]}")
     return ctx.check(ratio <= TOL[name], key, f"{what}: error = {ratio:.3g} units, allowed {TOL[name]:g} units "
-                     f"(unit = rtol*a*(1+n_rev)^2/(1-e))", w, mon=mon)
+                     f"(unit = rtol*a*(0.05+n_rev)^2/(1-e))", w, mon=mon)
 
 
 def _w(kind, **kw):
@@ -364,7 +370,7 @@ def rel_constants(ctx):
 
 
 def rel_kepler(ctx, spec, x0, t0, t2, ttype="float"):
-    """Two-body result == closed form; energy / angular momentum conserved; universal solver agrees."""
+    """Two-body result == closed form; energy / angular momentum conserved."""
     x0 = np.asarray(x0, dtype=float)
     w = _w("kepler", spec=spec, x0=x0, t0=t0, t2=t2, ttype=ttype)
     tb = spec["model"] == "tb"
@@ -602,6 +608,88 @@ def rel_epoch(ctx, spec, x0, t0, t2, shift_s):
     r = _ratio(yb, ya, 2 * ur, 2 * uv, "epoch_resplit", _jump(x0, t0, t2, spec))
     _close(ctx, "epoch_resplit", r, "epoch-resplit-differs", f"{spec['method']} SpecialPerturbations({spec['deg']}x{spec['ord']}, third={spec['third']}) over {t2 - t0:.6g} s: "
            f"start JD shifted by {shift_s:+g} s and times by {-shift_s:+g} s changes the result by {np.linalg.norm(yb[:3] - ya[:3]):.3e} km", w, mon)
+    return True
+
+
+def rel_scenario(ctx, start_iso, steps, dur, X, model, integration, geo=None, pert=None):
+    """Truth ephemerides written by real truth-only Scenario runs with different physics steps.
+
+    two_body: every TruthEphemeris row == closed form from the configured initial state; any model: rows of the runs at
+    common epochs agree (the scenario loop composes one propagate call per step).
+    """
+    import sqlite3
+    from datetime import datetime, timedelta
+
+    from .. import scenario_kit as sk
+
+    sk.init()
+    X = np.array(X, dtype=float)
+    w = _w("scenario", start=start_iso, steps=list(steps), dur=dur, X=X, model=model, integration=integration, geo=geo, pert=pert)
+    mon = "scenario_truth"
+    start = datetime.fromisoformat(start_iso)
+    runs = []
+    for step in steps:
+        tg = [sk.target_cfg(10001 + k, X[:3, k], X[3:, k]) for k in range(X.shape[1])]
+        sn = [sk.ground_sensor_cfg(20001, 35.0, -106.0)]
+        cfg = sk.scenario_cfg(start, start + timedelta(seconds=dur + 2 * step), step, [sk.engine_cfg(1, tg, sn)], truth_only=True, model=model,
+                              integration=integration, geopotential=geo, perturbations=pert)
+        rows = None
+        b = None
+        try:
+            with _guard():
+                b = sk.build(cfg)
+                sk.run_like_cli(b.app, timedelta(seconds=dur))
+                con = sqlite3.connect(b.db_path)
+                rows = con.execute("select t.agent_id, e.timestampISO, t.pos_x_km, t.pos_y_km, t.pos_z_km, t.vel_x_km_p_sec, t.vel_y_km_p_sec, "
+                                   "t.vel_z_km_p_sec from truth_ephemerides t join epochs e on e.julian_date = t.julian_date "
+                                   "where t.agent_id < 20000 order by t.agent_id, t.julian_date").fetchall()
+                con.close()
+        except Exception as exc:  # noqa: BLE001
+            ctx.check(False, "scenario-run-raised", f"truth-only {model} scenario (step {step} s) raised {type(exc).__name__}: {str(exc)[:200]}", w, mon=mon)
+        finally:
+            if b is not None:
+                sk.teardown(b)
+        if rows is None:
+            return False
+        table = {}
+        for aid, iso, *y in rows:
+            dt = round((datetime.fromisoformat(iso) - start).total_seconds(), 6)
+            table[(aid - 10001, dt)] = np.array(y, dtype=float)
+        want = {(k, float(j * step)) for k in range(X.shape[1]) for j in range(dur // step + 1)}
+        if not ctx.check(want <= set(table), "scenario-rows-missing", f"step {step} s: {len(want - set(table))} of {len(want)} expected truth rows are missing", w, mon=mon):
+            return True
+        runs.append((step, table))
+
+    def unit(k, dt, step):
+        ur, uv, _, _ = _unit(X[:, k], dt)
+        sr, sv, _, _ = _unit(X[:, k], step)
+        n = dt / step
+        return ur + n * sr, uv + n * sv
+
+    for step, table in runs:
+        for (k, dt), y in sorted(table.items()):
+            if dt > dur:
+                continue
+            if dt == 0.0:
+                if not ctx.check(np.allclose(y, X[:, k], rtol=1e-14, atol=0.0), "scenario-initial-state", f"truth row at the start differs from the configured state: {y} vs {X[:, k]}", w, mon=mon):
+                    return True
+                continue
+            if model == "two_body":
+                ur, uv = unit(k, dt, step)
+                r = _ratio(y, K.propagate(X[:, k], dt, MU), ur, uv)
+                if not _close(ctx, "scenario_truth", r, "scenario-truth-not-kepler", f"{integration} two_body scenario, step {step} s: truth of target {k} at +{dt:g} s differs from closed-form "
+                              f"Kepler by {np.linalg.norm(y[:3] - K.propagate(X[:, k], dt, MU)[:3]):.3e} km", w, mon):
+                    return True
+    (sa, ta), (sb, tb) = runs[0], runs[-1]
+    for key in sorted(set(ta) & set(tb)):
+        k, dt = key
+        if dt == 0.0 or dt > dur:
+            continue
+        ua, ub = unit(k, dt, sa), unit(k, dt, sb)
+        r = _ratio(ta[key], tb[key], ua[0] + ub[0], ua[1] + ub[1])
+        if not _close(ctx, "scenario_truth", r, "scenario-truth-step-dependent", f"{integration} {model} scenario: truth of target {k} at +{dt:g} s differs between physics steps {sa} s and {sb} s by "
+                      f"{np.linalg.norm(ta[key][:3] - tb[key][:3]):.3e} km", w, mon):
+            return True
     return True
 
 
@@ -911,14 +999,49 @@ def _sp_case(ctx, rng, i):
         ctx.sample(smp)
 
 
+def _scn_case(ctx, rng, i):
+    from datetime import datetime, timedelta
+
+    q = ctx.quick
+    while True:
+        start = datetime(2015, 1, 10) + timedelta(seconds=rng.randrange(0, 7 * 365 * 86400))
+        if all(abs((start - L).total_seconds()) > 2 * 86400 for L in (datetime(2015, 7, 1), datetime(2017, 1, 1))):
+            break
+    if rng.random() < 0.3:
+        start = start.replace(hour=23, minute=rng.choice([30, 45, 59]))  # the run crosses 0h UTC
+    sa, sb = rng.choice([(60, 300), (30, 60), (10, 60), (60, 120), (120, 600), (300, 900), (20, 50)])
+    lcm = sa * sb // math.gcd(sa, sb)
+    dur = lcm * max(1, min((900 if q else 3600) // lcm, rng.randrange(1, 8)))
+    nk = rng.choice([1, 2, 3])
+    cols = []
+    while len(cols) < nk:  # the scenario configuration only accepts initial altitudes up to 45000 km
+        x = _rand_orbit(rng)
+        if np.linalg.norm(x[:3]) < 6378.0 + 44000.0:
+            cols.append(x)
+    X = np.column_stack(cols)
+    model = "two_body" if i % 2 == 0 else "special_perturbations"
+    geo = pert = None
+    if model != "two_body":
+        deg, orde = rng.choice([(2, 0), (2, 2), (4, 4), (3, 3)])
+        geo = {"model": "egm96.txt", "degree": deg, "order": orde}
+        pert = {"third_bodies": rng.choice([[], ["moon"], ["sun", "moon"]]), "solar_radiation_pressure": False, "general_relativity": rng.random() < 0.3}
+        dur = min(dur, max(lcm, (600 if q else 1800) // lcm * lcm))
+    integ = rng.choice(METHODS)
+    done = rel_scenario(ctx, start.isoformat(), [sa, sb], dur, X, model, integ, geo, pert)
+    ctx.case(("scenario", start.isoformat(), sa, sb, dur, model, integ, _rnd(X)), nontrivial=bool(done))
+    ctx.count("cases_scenario_" + model)
+    ctx.sample({"relation": "Scenario truth ephemerides vs closed form / across physics steps", "model": model, "integration": integ, "start": start.isoformat(),
+                "steps": [sa, sb], "duration_s": dur, "targets": nk})
+
+
 def run(ctx):
     global HANG_S
     _init()
     HANG_S = 100 if ctx.quick else 240
     rng = ctx.pyrng("c03")
     rel_constants(ctx)
-    n_tb = ctx.scale(1200, 20_000)
-    n_sp = ctx.scale(80, 1_500)
+    n_tb = ctx.scale(2000, 20_000)
+    n_sp = ctx.scale(140, 1_500)
     budget0 = ctx.time_left()
     # interleave so that both families are reached whatever the wall budget: one SP case every n_tb/n_sp two-body cases
     every = max(1, n_tb // n_sp)
@@ -935,6 +1058,11 @@ def run(ctx):
     while j < n_sp and ctx.time_left() > reserve:
         _sp_case(ctx, rng, j)
         j += 1
+    srng = ctx.pyrng("c03-scenario")
+    for i in range(ctx.scale(12, 320)):
+        if ctx.time_left() < reserve / 2:
+            break
+        _scn_case(ctx, srng, i)
     ctx.note("budget_s_per_shard", budget0)
     for name, val in sorted(_WORST.items()):
         ctx.add_to_set("worst_ratio_" + name, float(f"{val:.3g}"))
@@ -963,3 +1091,5 @@ def replay(ctx, w):
         rel_event(ctx, w["spec"], w["x0"], w["t0"], w["te"], w["t2"], w.get("ttype", "float"), w.get("dv"))
     elif k == "epoch":
         rel_epoch(ctx, w["spec"], w["x0"], w["t0"], w["t2"], w["shift_s"])
+    elif k == "scenario":
+        rel_scenario(ctx, w["start"], w["steps"], w["dur"], w["X"], w["model"], w["integration"], w.get("geo"), w.get("pert"))
